@@ -8,9 +8,11 @@ log=/tmp/confirm-$id-$v.log; : > $log
 if [ ! -d $wt ]; then git -C /repo worktree add --detach $wt HEAD >>$log 2>&1; fi
 git -C $wt checkout -q --detach $(git -C /repo rev-parse HEAD) >>$log 2>&1; git -C $wt checkout -- . ; git -C $wt clean -fdq -e _build
 build(){ (cd $wt && cmake -G Ninja -B _build -DCMAKE_BUILD_TYPE=RelWithDebInfo -DCMAKE_CXX_FLAGS=-Wno-error >/dev/null 2>&1 && cmake --build _build -j16 >>$log 2>&1); }
-demo(){ d=$(ls $src/demo.* | grep -v '\.log$' | grep -v '\.cpp$' | head -1); case "$d" in *.py) python3 $d $wt >>$log 2>&1;; *.sh) bash $d $wt >>$log 2>&1;; esac; }
+arg=$wt
+demo(){ d=$(ls $src/demo.* | grep -v '\.log$' | grep -v '\.cpp$' | head -1); case "$d" in *.py) python3 $d $arg >>$log 2>&1;; *.sh) bash $d $arg >>$log 2>&1;; esac; }
 build || { echo "$id/$v: BASELINE BUILD FAILED"; exit 1; }
 demo; r0=$?
+if [ $r0 -ne 0 ]; then arg=$wt/_build; demo; r0=$?; fi
 if ! git -C $wt apply $src/patch.diff 2>>$log; then (cd $wt && patch -p1 -s < $src/patch.diff >>$log 2>&1) || { echo "$id/$v: PATCH DOES NOT APPLY on HEAD"; git -C $wt checkout -- .; exit 1; }; fi
 if build; then b=ok; else b=FAIL; fi
 t=$(cd $wt/_build/tests/unit && ./UnitTests --color_output=no 2>&1 | grep -a -E "No errors detected|failure|error" | tail -1)
